@@ -13,6 +13,13 @@ from bvt.vloop import Hang, VLoop
 PRI = {'completed': 0, 'error': 0, 'started': 1, 'pending': 2}
 
 
+class Y(BaseEvent):
+    """an event type nobody handles"""
+
+    tag: int = -1
+    depth: int = 0
+
+
 class X(BaseEvent):
     tag: int = -1
     d: float = 0.0
@@ -92,9 +99,12 @@ def run_history(sc: dict) -> dict:
         def disp(e, by):
             observe('pre-dispatch')
             st['ndisp'] += 1
+            had_path = bus.name in e.event_path
             try:
                 got = bus.dispatch(e)
             except Exception as ex:  # noqa
+                if not had_path and bus.name in e.event_path:
+                    viol.append(('C14.e', f'dispatch of event {e.tag} raised {type(ex).__name__} but the bus is recorded in its event_path {e.event_path} as if it had been visited'))
                 rejected.append((e, by, type(ex).__name__))
                 info['rejected'] += 1
                 if by is not None:
@@ -112,7 +122,8 @@ def run_history(sc: dict) -> dict:
             if got is not e:
                 viol.append(('C14.a', f'dispatch returned a different object for event {e.tag}'))
             accepted[e.tag] = e
-            state[e.tag] = 'queued'
+            if isinstance(e, X):
+                state[e.tag] = 'queued'  # (events nobody handles have no observable processing on the harness side)
             st['last_activity'] = T()
             observe('post-dispatch')
             return e
@@ -190,6 +201,21 @@ def run_history(sc: dict) -> dict:
                     if st['ndisp'] >= cap:
                         break
                     disp(mk(d=d, kids=kids, aw=aw, boom=boom, event_timeout=to), None)
+            elif k == 'burstnh':
+                for _ in range(op[1]):
+                    if st['ndisp'] >= cap:
+                        break
+                    tag = st['n']
+                    st['n'] += 1
+                    y = Y(tag=tag, event_created_at=base + datetime.timedelta(milliseconds=tag + 1), event_timeout=None)
+                    events[tag] = y
+                    disp(y, None)
+            elif k == 'retry':
+                # the caller kept the event objects whose dispatch was rejected and dispatches the same objects again
+                again = [(e, by) for (e, by, _x) in rejected if by is None and e.tag not in accepted][: op[1]]
+                for e, _by in again:
+                    info['retried-rejected'] += 1
+                    disp(e, None)
             elif k == 'await':
                 if accepted:
                     tags = sorted(accepted)
@@ -227,6 +253,8 @@ def run_history(sc: dict) -> dict:
                 t.cancel()
         # everything accepted was handled exactly once, completes and is awaitable
         for tag, e in accepted.items():
+            if not isinstance(e, X):
+                continue
             n = entered[tag]
             guard = any(r.status == 'error' and isinstance(r.error, RuntimeError) and 'Infinite loop' in str(r.error) for r in e.event_results.values())
             if n != 1 and not (n == 0 and guard and maxdepth > 2):
@@ -235,7 +263,7 @@ def run_history(sc: dict) -> dict:
         for tag, e in accepted.items():
             sig = e.event_completed_signal
             if not (sig is not None and sig.is_set() and e.event_status == 'completed'):
-                viol.append(('C13.c', f'accepted event {tag} (depth {e.depth}) not complete at quiescence: status {e.event_status} signalled {bool(sig and sig.is_set())} results {[(r.status, [c.tag for c in r.event_children if not (c.event_completed_signal and c.event_completed_signal.is_set())]) for r in e.event_results.values()]}'))
+                viol.append(('C13.c', f'accepted event {tag} ({type(e).__name__}, depth {e.depth}) not complete at quiescence: status {e.event_status} signalled {bool(sig and sig.is_set())} results {[(r.status, [c.tag for c in r.event_children if not (c.event_completed_signal and c.event_completed_signal.is_set())]) for r in e.event_results.values()]}'))
                 break
         for e, by, _x in rejected:
             if by is not None:
